@@ -273,6 +273,21 @@ def monitor(case, obs):
                 hits.append({"prop": "C14", "key": f"explicit-type-ignored:{prefix}", "what": f"{cr['argv']}: file {pos + 1} was parsed as {r['loaders'][pos][0]}, explicitly requested {want}"})
             if want and not r["loaders"] and not r["exc"] and case["names"][pos] in r["err"] and "Error:" in r["err"]:
                 hits.append({"prop": "C14", "key": f"explicit-type-rejected:{prefix}", "what": f"{cr['argv']}: explicit type given but no parser was invoked: {r['err'][:120]}"})
+    # C02 (exit status half): when both files were read by JSON-compatible loaders, status 0 iff equal as data
+    try:
+        from harness.streams.script import data_eq
+        docs = [json.loads(case["files"][n]["text"]) for n in case["names"]]
+        de = data_eq(docs[0], docs[1])
+    except Exception:
+        de = None
+    if de is not None:
+        for r, cr in zip(runs, case["runs"]):
+            ld = [x[0] for x in r["loaders"]]
+            if len(ld) == 2 and all(x in ("json", "json5", "yaml") for x in ld) and not r["exc"] and "Error" not in r["err"]:
+                if de and r["rc"] != 0:
+                    hits.append({"prop": "C02", "key": "equal-but-exit-nonzero", "what": f"{cr['argv']}: documents are equal as data but the command exits with {r['rc']}"})
+                if not de and r["rc"] != 1:
+                    hits.append({"prop": "C02", "key": "differ-but-exit-zero", "what": f"{cr['argv']}: documents differ but the command exits with {r['rc']}"})
     if obs.get("lib") is not None:
         a, l = runs[0], obs["lib"]
         if a["exc"] is None and l.get("exc") is None and (a["rc"], a["out"]) != (l["rc"], l["out"]):
